@@ -192,8 +192,40 @@ def c09(tier, seed):
     )
 
 
+def c07(tier, seed):
+    return generic(
+        "C07", tier, seed, budgets=(60, 900),
+        rule="(i) archives built with identical inputs in one process and in child processes: symmetric key, archive nonce, ephemeral public key and every "
+             "wrapped key must all be distinct and no bit position constant over the pool; (ii) 24-byte high-entropy probes of every file content and every "
+             "file name are searched in the bytes after the header, over every append size class with flushes in between (ENCRYPT and ENCRYPT|COMPRESS with "
+             "incompressible content); (iii) recipients 1..6: the right key at every position among wrong keys must open, wrong keys / no key must not; "
+             "distinct = distinct case; all non-trivial",
+        musthit=["musthit:cross_process_archives", "scan:layers1", "scan:layers3", "keylist:opened_by_recipient", "keylist:refused_for_non_recipient",
+                 "keylist:recipient_at_position_3"],
+        assumptions=["non-repetition and non-constant bits are observed, not randomness: a constant, counter or clock seed is caught, a subtly biased generator is not"],
+    )
+
+
+def c08(tier, seed):
+    return generic(
+        "C08", tier, seed, scaled_quick=(), scaled_thorough=(), budgets=(70, 1500),
+        rule="hostile byte strings: valid archives (4 layer combos) with 1..3 structured mutations (truncate, bit flip, byte / u32 / u64 overwrite with boundary values, "
+             "splice, insert, delete, append) applied to the raw file, to the compression-layer bytes or to the block stream + footer and then wrapped in valid outer "
+             "layers by the independent encoder; forged footers / size tables / block lengths with boundary values, very long offset lists, raw random bytes, empty "
+             "input; each is opened, listed, read, hashed, linearly extracted (with a random history continuing after errors, then dropped) and repaired in both modes "
+             "under a panic trap, a counting allocator (ceiling 16*len + 640 MiB) and an instrumented source (read calls <= 64*len + 1e6); process deaths are attributed "
+             "through a journal; distinct = distinct (bytes, history seed); non-trivial = non-empty input",
+        musthit=["forge:DeepOffsets", "forge:SizesEntry", "forge:FooterLen", "mutation:trunc", "mutation:flip", "after_error_continuations",
+                 "outcome:mutated:open:err", "outcome:mutated:repair:ok", "outcome:forged:get_file+read:err"],
+        assumptions=["a wall-clock watchdog (90 s quick / 400 s thorough per case) and the orchestrator's stage timeout only ever yield INCONCLUSIVE",
+                     "built with overflow checks and debug assertions on, the profile the repository's own suite runs in"],
+    )
+
+
 PROPS = {
     "C01": c01,
+    "C08": c08,
+    "C07": c07,
     "C09": c09,
     "C12": c12,
     "C13": c13,
